@@ -38,6 +38,20 @@ func InitDList[T comparable](value T) *DList[T] {
 	}
 }
 
+// relinkHead restores the prev pointers around the head node. The head node is
+// embedded in the list by value, so every operation that installs a new first
+// element overwrites it with a copy and moves the previous content elsewhere:
+// the neighbours must be pointed back at the nodes that are now in the list.
+func (l *DList[T]) relinkHead() {
+	l.prev = nil
+	if second := l.next; second != nil {
+		second.prev = &l.DoubleNode
+		if second.next != nil {
+			second.next.prev = second
+		}
+	}
+}
+
 // Unshift inserts a new node at the beginning of the doubly linked list.
 func (l *DList[T]) Unshift(value T) {
 	newNode := newDNode(value)
@@ -48,6 +62,7 @@ func (l *DList[T]) Unshift(value T) {
 
 	// Move the pointer to the new node.
 	l.DoubleNode = *newNode
+	l.relinkHead()
 }
 
 // Append inserts a new node at the end of the doubly linked list.
@@ -91,6 +106,7 @@ func (l *DList[T]) InsertBefore(node *DoubleNode[T], value T) error {
 		newNode.next = &head
 		// Move the pointer to the new node.
 		l.DoubleNode = *newNode
+		l.relinkHead()
 	}
 
 	return nil
@@ -158,6 +174,7 @@ func (l *DList[T]) Delete(node *DoubleNode[T]) error {
 	// Check if the node to be deleted is the head node.
 	if head.Value == node.Value {
 		l.DoubleNode = *head.next
+		l.relinkHead()
 		return nil
 	}
 
@@ -191,6 +208,7 @@ func (l *DList[T]) Shift() *DoubleNode[T] {
 	} else {
 		head = head.next
 		l.DoubleNode = *head
+		l.relinkHead()
 	}
 
 	return &node
